@@ -22,8 +22,12 @@ RULE = ('every bundled matrix name (from _submat_files()) in upper, lower and ra
         'user matrix into a scratch working directory under a bare name that spells a bundled matrix (lower/upper/mixed case) or '
         'not, and call submat(that name) - the file must win - or another spelling (no file: the name decides); extra relational stream '
         '(no model): 250/1500 files with Greek, Cyrillic, CJK, astral-plane, zero-width and combining letters and non-ASCII comments, '
-        'written as UTF-8 and compared with the oracle\'s positional reading of the abstract words; non-trivial = distinct '
-        'case with a branch marker')
+        'written as UTF-8 and compared with the oracle\'s positional reading of the abstract words; "mfile" cases: matrices of numbers '
+        'of any shape (short/long/mixed rows, repeated letters, row letters outside the header) in an abstract layout, text rendered AND expected result computed by the model '
+        '(run_C20m) under 9 line terminators; "numtok": single cell words (random over 0-9._eE+-, exponent forms, underscores, inf/nan, junk; thorough: every word of <= 4 characters over 01._e+-) read by '
+        'CPython int()/float(), by the model, and as the only cell of a row by submat; "fsdir": a scratch working directory with regular files, directories, symbolic links (to files, to directories, '
+        'dangling, loops, chains of up to 42 links) and submat(name) as str or Path; names as pathlib.Path; pieces of the joined listing as unknown names; histories return object identities and the final content of every object; '
+        'non-trivial = distinct case with a branch marker')
 TRUSTED = ['CPython text layer (open() in text mode with universal newlines, UTF-8 decoding), str.split/strip/splitlines/'
            'upper, int(), float(), dict insertion order: modelled for ASCII and compared on every case',
            'os.path.isfile(fname) is taken as false for names (empty working directory in the driver); the lookup of NAME.upper() in '
@@ -160,7 +164,8 @@ def file_result(case, got):
 
 # ----------------------------------------------------------------------------- files of NUMBERS (literals written by the model)
 
-EOLS = {'LF': '\n', 'CRLF': '\r\n', 'CR': '\r'}
+EOLS = {'LF': '\n', 'CRLF': '\r\n', 'CR': '\r', 'VT': '\x0b', 'FF': '\x0c', 'FS': '\x1c', 'GS': '\x1d', 'RS': '\x1e', 'NEL': '\x85'}
+EOL_CHOICE = ['LF', 'LF', 'LF', 'CRLF', 'CRLF', 'CR', 'CR', 'VT', 'FF', 'FS', 'GS', 'RS', 'NEL']
 
 
 def py_num(v):
@@ -227,7 +232,7 @@ def gen_numfile(rng):
             mant = rng.choice([0, 1, -1, 5, -5, 12, -125, 1250, rng.randint(-10 ** 6, 10 ** 6), rng.randint(-10 ** 20, 10 ** 20), 2 ** 53 + 1])
             vs.append([mant, rng.choice([0, 1, 2, 2, 3, 5, 9, 17, 25]) if dec else 0])
         rows.append({'r': r, 'dec': dec, 'v': vs})
-    return {'op': 'numfile', 'letters': letters, 'rows': rows, 'eol': rng.choice(['LF', 'LF', 'CRLF', 'CR']),
+    return {'op': 'numfile', 'letters': letters, 'rows': rows, 'eol': rng.choice(EOL_CHOICE),
             'final': rng.random() < 0.7, 'aspath': rng.random() < 0.3}
 
 
@@ -362,7 +367,7 @@ def gen_mfile(rng):
         body.append(_comment(rng) if rng.random() < 0.5 else _blank(rng))
     pre = [(_comment(rng) if rng.random() < 0.7 else _blank(rng)) for _ in range(rng.choice([0, 0, 1, 2, 4]))]
     return {'op': 'mfile', 'pre': pre, 'header': {'w': letters, 'sep': sep(), 'lead': rng.choice(['', ' ', '   ', '\t']), 'trail': rng.choice(['', '', ' ', '\t '])},
-            'body': body, 'eol': rng.choice(['LF', 'LF', 'CRLF', 'CR']), 'final': rng.random() < 0.7, 'aspath': rng.random() < 0.3}
+            'body': body, 'eol': rng.choice(EOL_CHOICE), 'final': rng.random() < 0.7, 'aspath': rng.random() < 0.3}
 
 
 # ----------------------------------------------------------------------------- single cell words read by int() / float()
@@ -810,7 +815,8 @@ def gen_cases(rng, tier):
             c = mutate(rng, c)
         cases.append(c)
     for raw in ['\xc9 \xd1\n\xc9 1 2\n\xd1 2 1\n', 'A\xa0B\nA\xa01\xa02\n', 'A B\x85A 1 2\x85B 2 1', '# caf\xe9\n\xb5 \xdf\n\xb5 1.5 2\n', '', '\n', '#\n', 'A\n', 'A B\nA 1 2\nB 2 1', 'A B\r\nA 1 2\r\nB 2 1\r\n', ' A B\nA 1.0 2\nB 2 1\n', 'A\x0bB\nA 1\n',
-                'A B\nA 1 2\x0cB 2 1\n', 'A B\nA\x1f1\x1f2\n', 'A B\nA 1', 'A B\nA 1 2 3 x\n', 'A B\nA x\n', 'A B\nA\n', 'A A\nA 1 2\n']:
+                'A B\nA 1 2\x0cB 2 1\n', 'A B\nA\x1f1\x1f2\n', 'A B\nA 1 2 # c', 'A B\nA 1 2 # v1.0', 'A B C\nA 1 2 # c', 'A B A\nA 1 2 3\nB 4 5 6\nA 7 8', 'A\nr 1e5 x\n', 'A\nr 1.e5 x\n',
+                'A B\nA 1 2 3.\n', 'A B\nA 1_0 -0_0\nB 1e2 .5\n', 'A B\n# c\n\nA 1 2\n   # d\nB 2 1\n\n', '#A B\nA B\nA 1 2\n', 'A B\r\rA 1 2\r', 'A B\n\r\nA 1 2\n\r', 'A B\nA 1', 'A B\nA 1 2 3 x\n', 'A B\nA x\n', 'A B\nA\n', 'A A\nA 1 2\n']:
         cases.append({'op': 'file', 'raw': raw})
     for _ in range(1500 if thorough else 260):
         cases.append(gen_history(rng))
@@ -1606,31 +1612,47 @@ def python_snippet(case):
 LEVEL_TEXT = ('Machine-checked Coq theorems over the regenerated raw bytes of all bundled matrix files (complete enumeration, re-checked '
               'against /repo on every run): the model parser returns for every data line, row letter and column index exactly the j-th '
               'number word of that line under the j-th header letter, loses or invents no row or column, and every bundled matrix is '
-              'symmetric wherever both entries exist; name resolution is case-insensitive on the regenerated file list, an unknown name '
-              'yields the FileNotFoundError text containing every available name, the composed function on names never ends in '
-              'ValueError, and an existing regular file always wins over a bundled name (lookup order, C20_file_wins). Unbounded theorems: the same positional reading holds for EVERY file content in the domain (wf_content); for files '
-              'rendered from an abstract layout (comments, blank lines, arbitrary in-line white space; LF, CRLF or CR line ends, with or '
-              'without a terminator after the last line) the lines and words seen by the parser are the abstract ones; integers and decimal '
-              'literals m/10^k written canonically are read back as exactly (m, k), so a rendered matrix of numbers loads as these numbers. '
-              'The hand-written model of submat() (text layer, line filter, split/zip/convert, dict building, name lookup) is tied to sugar '
-              'by differential testing of all cells of all bundled files under several spellings, of generated files (str and Path '
-              'arguments), of files whose text and number literals are produced by the model itself, and of multi-call histories. '
-              'Round 7: C20_parse_render_matrix gives the whole result as an equation, parse(render M) = rows in file order with zip(letters, numbers) per row, '
-              'for matrices of numbers of ANY shape (rectangular as NUC.4.2, short and long rows - zip truncation -, repeated letters) in ANY layout '
-              '(comments and blank lines anywhere, arbitrary in-line white space, LF/CRLF/CR, missing final terminator), with the int/float choice '
-              'per ROW (C20_row_kind: one decimal literal anywhere in the row, also beyond the last header letter, makes every cell a float); '
-              'C20_skipped_lines_irrelevant / C20_insert_skipped_line for arbitrary text; a state machine of call histories '
-              '(C20_calls_independent, C20_objects_independent: every call hands out a new object with the pure result; the lru_cache variant is '
-              'refuted, C20_cached_variant_refuted); C20_fs_resolution over directories with regular files, directories, symbolic links, dangling links and link loops. '
-              'The cell grammar of int()/float() (signs, leading zeros, underscores between digits, exponents) is a Gallina function compared with CPython on every generated word.')
+              'symmetric wherever both entries exist (C20_bundled_symmetric; the boolean check is the statement for every parser result, '
+              'C20_symmetric_iff, "equal" being equality of the denoted rationals, C20_num_val_eqb_is_rational_eq); name resolution is '
+              'case-insensitive on the regenerated file list, an unknown name yields the FileNotFoundError text whose listing, cut at ", ", '
+              'is exactly the regenerated name list (C20_fnf_listing_exact), the composed function on names never ends in ValueError, and an '
+              'existing regular file always wins over a bundled name (C20_file_wins; over a directory of files, directories and symbolic '
+              'links C20_fs_resolution: what leads to a regular file is parsed, a directory, a missing entry, a dangling link and a link '
+              'loop leave the decision to the bundled names). Unbounded theorems for user files: for EVERY text the parser is a function of '
+              'the words of the non-skipped lines (C20_parse_words; for files of the layout grammar - comment and blank lines anywhere, '
+              'arbitrary in-line white space, LF, CRLF, CR or any other line boundary of str.splitlines as terminator, with or without a '
+              'terminator after the last line - the text layer disappears: C20_parse_render_words); every file that loads, repeated letters '
+              'included, has cell [r][c] = the word of the LAST data line starting with r in the LAST of the first min(#letters, #values) '
+              'columns headed c (C20_parse_general, zip truncation made explicit); loading raises ValueError exactly when a data line has '
+              'fewer than two words or a word that zip reaches is no number for the reader the row selects (C20_parse_succeeds_iff); '
+              'C20_parse_render_matrix gives the whole result as an equation, parse(render M) = rows in file order with zip(letters, '
+              'numbers) per row, for matrices of numbers of ANY shape (rectangular as NUC.4.2, short and long rows, repeated letters) in '
+              'ANY layout; the int/float choice is per ROW (C20_row_kind, C20_cell_is_int_iff: a loaded cell is an int iff no number of '
+              'its row, also beyond the last header letter, has a decimal point; the per-cell reading is refuted, '
+              'C20_per_cell_reading_refuted); comment / blank lines are irrelevant wherever they stand (C20_skipped_lines_irrelevant, '
+              'C20_insert_skipped_line). Numbers: the cell grammar of int() / float() (signs, leading zeros, underscores between digits, '
+              'exponents) is a Gallina function compared with CPython on every generated word; canonical integers and decimals m/10^k are '
+              'read back exactly (C20_number_round_trip), an underscore between digits does not change an integer (C20_int_underscore), '
+              'float("<m/10^k>e<x>") is m*10^x/10^k (C20_float_exponent). Call histories: a state machine of calls and caller-side edits '
+              '(C20_calls_independent, C20_objects_independent: every call hands out a new object holding the pure result of the argument '
+              'and the current file content; the functools.lru_cache variant of the fixed defect F41 is refuted, C20_cached_variant_refuted). '
+              'The hand-written model of submat() is tied to sugar by differential testing of all cells of all bundled files under several '
+              'spellings (str and Path), of generated files, of files whose text, number literals and expected result are produced by the '
+              'model itself, of single cell words, of directories with links, and of multi-call histories with object identities.')
 LEVEL_NOTE = ('Trusted: Coq kernel/vm_compute, tools/gens/c20.py (byte copy; length+checksum re-verified in Coq against the disk file), the '
-              'correspondence harness, CPython str/int/float/open/os.path.isfile/importlib.resources. Modelled rather than verified: '
+              'correspondence harness, CPython str/int/float/open/os.path.isfile/pathlib/importlib.resources. Modelled rather than verified: '
               'submat() and _submat_files(); decoded text over code points 0..255 (the locale\'s default text encoding is assumed to be '
-              'UTF-8, as in the sandbox; letters beyond Latin-1 are covered by a relational check without model); cells in plain integer/decimal syntax; float cells compared as exact decimal '
-              'literals converted by Fraction (CPython float() itself is trusted). Tested only, not proved: other line boundaries of '
-              'str.splitlines (\\x0b \\x0c \\x1c-\\x1e \\x85) in rendered files, letters beyond code point 255, non-canonical number spellings (+5, 007, .5), call-history '
-              'independence (histories: repeats, rewritten paths, results edited by the caller; fixed defect cache_aliasing, commit 0feda3c, '
-              'witnesses in corpus/C20/histories.json). Measured reach: every statement of submat and _submat_files is executed in the quick tier '
-              'except the two def lines (61, 66), which run at import time before the measurement starts. '
+              'UTF-8, as in the sandbox; letters beyond Latin-1 are covered by a relational check without model); float cells compared as '
+              'exact decimals converted by Fraction (CPython float() rounding itself is trusted). Outside the modelled number domain '
+              '(counted as drift, never compared): inf / infinity / nan cells, exponents of more than 3 digits, integers beyond the '
+              'int-string-conversion limit. Tested only, not proved: letters beyond code point 255; pathlib\'s normalisation of a Path '
+              'argument that is no file (the harness hands the model os.fspath of the same Path); that os.path.isfile is what fs_file says '
+              '(compared on real directories with symbolic links incl. chains of 39..42 links; absolute links and path normalisation not '
+              'modelled); the heap model of histories is compared with object identities (is) and final contents of every returned dict '
+              'and row dict, there is no model of the interpreter state beyond that. A trailing "# ..." after the cells is not a comment '
+              'for the code (witness C20_witness_trailing_comment: ignored by zip beyond the header, but a "." in it turns the row into '
+              'floats, and in a short row it is read as a cell); reported, not treated as a defect (the property speaks of the layout of '
+              'the bundled files, which have whole-line comments only). Measured reach: every statement of submat and _submat_files is '
+              'executed in the quick tier except the def lines, which run at import time before the measurement starts. '
               'All theorems closed under the global context (no axioms).')
 TECHNIQUE = 'Coq proof (finite enumeration by vm_compute over regenerated data + structural lemmas) with differential model/code correspondence'
